@@ -94,6 +94,9 @@ func (p Path) local() string {
 	if strings.HasPrefix(*p.P, SchemelessNS) {
 		return "sl." + strings.TrimPrefix(*p.P, SchemelessNS)
 	}
+	if strings.HasPrefix(*p.P, SchemelessNS2) {
+		return "sl2." + strings.TrimPrefix(*p.P, SchemelessNS2)
+	}
 	return "ex." + strings.TrimPrefix(*p.P, NS)
 }
 
@@ -501,6 +504,9 @@ var altNamespaces = []struct{ alias, ns string }{
 // SchemelessNS: a namespace written without a scheme (alias `sl`).  A JSON-LD document cannot carry a predicate of it (a key that is
 // not an absolute IRI is dropped), so constraints over it see no values; what they are called in the report is still their IRI
 const SchemelessNS = "example.org/vocab/"
+
+// ... and one whose first label is the name of a built-in prefix: an IRI of it reads like a compact IRI of that prefix
+const SchemelessNS2 = "core.x/"
 
 // moveToNs rewrites predicate NS+local to the namespace of altNamespaces[k] everywhere in the graph and the path
 func moveToNs(gr Graph, p *Path, local string, k int) (alias, ns string) {
